@@ -37,6 +37,10 @@ C18_CallbacksExact(o) ==
 C18_AllFinished(o) ==
   (HasEnd(o) /\ ~Crashed(o)) => \A s \in Sessions(o) : Established(o, s) => (At(o, "finished", s) # {} \/ At(o, "gone", s) # {})
 
+(* informational (no listed property says it): no client is left on a connection that was made and *)
+(* never served - still in a listener's or the server's queue when Close came - and never closed   *)
+X18_NoStranded(o) == \A i \in Idx(o) : o[i].k # "stranded"
+
 (* nothing that serves is left behind *)
 C18_NoLeak(o) == \A i \in Idx(o) : (o[i].k = "end" /\ o[i].res # "crash") => o[i].n = 0
 =============================================================================
